@@ -95,10 +95,15 @@ func (sh *shard) Flush(ctx context.Context, shardN int, prev cid.Cid) (cid.Cid, 
 	// this sets allocations as priority allocation
 	pin.Allocations = sh.allocations
 	pin.Type = api.ShardType
-	pin.Reference = &prev
+	// The first shard has no previous shard. A reference to an
+	// undefined CID cannot be decoded by the peers that receive this
+	// pin over RPC (adding on a non-leader Raft peer failed).
+	if prev.Defined() {
+		pin.Reference = &prev
+	}
 	pin.MaxDepth = 1
-	pin.ShardSize = sh.Size()           // use current size, not the limit
-	if len(nodes) > 1 { // using an indirect graph
+	pin.ShardSize = sh.Size() // use current size, not the limit
+	if len(nodes) > 1 {       // using an indirect graph
 		pin.MaxDepth = 2
 	}
 
